@@ -98,7 +98,7 @@ func main() {
 		h.model = m
 		defer m.Close()
 	}
-	run.SetRule("direct: every subset E of a 4(5)-cursor universe in seeded order × after,before ∈ {absent} ∪ every integer position (members and gaps) × first,last ∈ {absent,0..|E|+1}; served (four APIs built in one process — plain connections built before, next to, after customised ones — the API seeded per case): every subset of a 4(5)-cursor universe × {all,window}×{sync,promise} × (first|last ∈ 0..|E|+1) × after,before ∈ {absent} ∪ cursors(E) ∪ 3 foreign emitted cursors, getter policy / selection / argument spelling seeded, all four selections on the zero-edge path; count-error combinations; a connection with a non-hashable cursor type, forward-only, backward-only and customised (default first/last, required extra argument) connections × counts × cursors on every API; edges selected with four edge fields (node, label, weight, even); arbitrary cursor strings; forward and backward walks for every page size 1..|E|+1; random larger sets; codec round trips. distinct = distinct canonical case; non-trivial = the selected page is a non-empty proper sub-list of E (direct/served), an arbitrary cursor string is involved, or the walk needs more than one page")
+	run.SetRule("direct: every subset E of a 4(5)-cursor universe in seeded order × after,before ∈ {absent} ∪ every integer position (members and gaps) × first,last ∈ {absent,0..|E|+1}; served (four APIs built in one process — plain connections built before, next to, after customised ones — the API seeded per case): every subset of a 4(5)-cursor universe × {all,window}×{sync,promise} × (first|last ∈ 0..|E|+1) × after,before ∈ {absent} ∪ cursors(E) ∪ 3 foreign emitted cursors, getter policy / selection / argument spelling seeded, all four selections on the zero-edge path; count-error combinations; connections with a non-hashable cursor type and with an interface-typed cursor component (int64/uint32/float64/string keys), forward-only, backward-only and customised (default first/last, required extra argument) connections × counts × cursors on every API; edges selected with four edge fields (node, label, weight, even); arbitrary cursor strings; forward and backward walks for every page size 1..|E|+1; random larger sets; codec round trips. distinct = distinct canonical case; non-trivial = the selected page is a non-empty proper sub-list of E (direct/served), an arbitrary cursor string is involved, or the walk needs more than one page")
 
 	if run.Replay != "" {
 		var c Case
@@ -135,6 +135,26 @@ func main() {
 			v = -v
 		}
 		h.check(Case{Kind: "codec", Codec: &cur{v, hx.Pick(R, []string{"", "p", "pp", "ü", "a b", strings.Repeat("q", R.Intn(40))})}})
+	}
+
+	// ---- codec round trips of a cursor with an interface-typed component (DeepEqual, Go types included)
+	anyVals := []AnyVal{{T: "nil"}, {T: "bool", N: 1}, {T: "string", S: "k30"}, {T: "string", S: ""}, {T: "float64", F: 2.5}, {T: "float64", F: 20}, {T: "float32", F: 1.5}}
+	for _, n := range []int64{0, 1, 7, -1, -32, -33, 127, 128, 255, 256, 500, 32767, 32768, 65535, 65536, 70000, 1<<31 - 1, 1 << 31, 1<<32 - 1, 1 << 32, 1 << 40, -(1 << 31), -(1 << 31) - 1, 1<<63 - 1, -(1 << 63)} {
+		anyVals = append(anyVals, AnyVal{T: "int64", N: n})
+		if n >= 0 && n < 1<<32 {
+			anyVals = append(anyVals, AnyVal{T: "uint32", N: n})
+		}
+		if n >= -(1<<31) && n < 1<<31 {
+			anyVals = append(anyVals, AnyVal{T: "int32", N: n})
+		}
+		if n >= 0 && n < 256 {
+			anyVals = append(anyVals, AnyVal{T: "uint8", N: n})
+		}
+	}
+	for i, v := range anyVals {
+		v.Id = int64(i*37 - 100)
+		v := v
+		h.check(Case{Kind: "codec", CodecAny: &v})
 	}
 
 	// ---- (i) pagination.EdgesToReturn, exhaustive
@@ -257,26 +277,30 @@ func main() {
 					}
 				}
 			}
-			// a connection whose cursor type is not hashable (a struct holding a slice)
-			for n := 0; n <= len(E)+1; n++ {
-				for _, fwd := range []bool{true, false} {
-					for _, c := range append(append([]int{-1}, set...), foreign[1]) {
-						var cur *CurArg
-						if c >= 0 {
-							cur = &CurArg{Kind: "emitted", C: c, S: emitFor("tagCursor", c)}
+			// connections whose cursor type is not hashable (a struct holding a slice) / has an
+			// interface-typed ordering key holding int64, uint32, float64 or string values
+			for _, fld := range []string{"tagCursor", "anyCursor"} {
+				for n := 0; n <= len(E)+1; n++ {
+					for _, fwd := range []bool{true, false} {
+						for _, c := range append(append([]int{-1}, set...), foreign[1]) {
+							var cur *CurArg
+							if c >= 0 {
+								cur = &CurArg{Kind: "emitted", C: c, S: emitFor(fld, c)}
+							}
+							r := Req{Mode: "all", Field: fld, World: world, SelPI: R.Chance(3, 4), SelTC: R.Bool(), NilEmpty: R.Bool()}
+							if fwd {
+								r.First, r.After = ip(n), cur
+							} else {
+								r.Last, r.Before = ip(n), cur
+							}
+							h.check(Case{Kind: "served", E: E, Req: &r})
 						}
-						r := Req{Mode: "all", Field: "tagCursor", World: world, SelPI: R.Chance(3, 4), SelTC: R.Bool(), NilEmpty: R.Bool()}
-						if fwd {
-							r.First, r.After = ip(n), cur
-						} else {
-							r.Last, r.Before = ip(n), cur
-						}
-						h.check(Case{Kind: "served", E: E, Req: &r})
 					}
 				}
-			}
-			for n := 1; n <= len(E)+1; n++ {
-				h.check(Case{Kind: "walk", E: E, Walk: &Walk{Mode: "all", Forward: n%2 == 1, N: n, World: world, Field: "tagCursor"}})
+				for n := 1; n <= len(E)+1; n++ {
+					h.check(Case{Kind: "walk", E: E, Walk: &Walk{Mode: "all", Forward: n%2 == 1, N: n, World: world, Field: fld}})
+					h.check(Case{Kind: "walk", E: E, Walk: &Walk{Mode: "all", Forward: n%2 == 0, N: n, World: world, Field: fld}})
+				}
 			}
 			// walks over the direction-only connections
 			for n := 1; n <= len(E)+1; n++ {
